@@ -165,13 +165,38 @@ def localXML (items : List JItem) (c : Call) : Except Err (Option Str) :=
   | .ok none => .ok none
   | .ok (some (t, _)) => .ok (some t.toXMLCodes)
 
-/-- `c19-surrogate`: in `<root><p>😀ab</p></root>` typing at index 3 (right after the emoji) fails:
-    `SplitText` stores a rune count as the left half's length, the second resolution of the same
-    position asks for a split past that length (`ErrSplitOutOfRange`; the json layer panics) -/
-theorem surrogate_split_witness :
+/-! ### `c19-surrogate` (repaired: hooks/fix-c19-splittext-utf16-length.patch, 0e18e1d8; switch `fixSplitTextLength` of
+    Model/Tree.lean) and what remains of it, `c19-surrogate-cut` -/
+
+/-- `<r><p>😀ab</p></r>`; the text node is pointer 2 -/
+def emojiTree : Tree := initialTree 1 [⟨0, [114], [], []⟩, ⟨1, [112], [], []⟩, ⟨2, textType, [0xD83D, 0xDE00, 97, 98], []⟩]
+
+/-- before the repair: typing at index 3 (right after the emoji) failed. `Edit` resolves `to` first and splits the text at
+    UTF-16 offset 2; `SplitText` stored a RUNE count (1) as the left half's length, and resolving `from` - the same position -
+    asked that half for a split at offset 2 of a length it believed to be 1: `ErrSplitOutOfRange`, the json layer panicked -/
+theorem surrogate_split_witness_off :
+    (match emojiTree.splitTextW false 2 2 with
+     | .ok (t', some _) => (t'.get 2).visLen == 1 &&
+        (match t'.splitTextW false 2 2 with
+         | .error .splitRange => true
+         | _ => false)
+     | _ => false) = true := by
+  decide +kernel
+
+/-- repaired: the call inserts "x" right after the emoji -/
+theorem surrogate_split_fixed :
     (match localXML [⟨0, [114], [], []⟩, ⟨1, [112], [], []⟩, ⟨2, textType, [0xD83D, 0xDE00, 97, 98], []⟩]
         (.edit 3 3 [[⟨0, textType, [120], []⟩]] 0) with
-     | .error .splitRange => true
+     | .ok (some x) => x == "<r><p>😀xab</p></r>".toList.map Char.toNat
+     | _ => false) = true := by
+  decide +kernel
+
+/-- `c19-surrogate-cut` (listed, NOT repaired by the length fix): a split INSIDE the surrogate pair (offset 1) re-decodes both
+    halves, each half of the pair becomes U+FFFD for good - the tree counterpart of `TextValue.Split`; the cached lengths stay
+    exact (corpus/C19/tree-surrogate-cut.trace; Props/C14Tree.lean `tree_undo_do_surrogate_witness` is the undo view of it) -/
+theorem surrogate_cut_witness :
+    (match emojiTree.splitText 2 1 with
+     | .ok (t', some _) => t'.toXMLCodes == "<r><p>\uFFFD\uFFFDab</p></r>".toList.map Char.toNat && t'.lensExact
      | _ => false) = true := by
   decide +kernel
 
@@ -361,12 +386,19 @@ theorem lens_exact_split_tombstone_fixed :
      | .error _ => false) = true := by
   decide +kernel
 
-/-- exact cached lengths are NOT an invariant (the remaining reason, listed finding c19-surrogate): splitting the text "\U0001F600ab" after 'a' (UTF-16 offset 3)
-    leaves the left half with the rune count 2 as its length -/
-theorem lens_exact_witness_surrogate :
-    (let t := initialTree 1 [⟨0, [114], [], []⟩, ⟨1, [112], [], []⟩, ⟨2, textType, [0xD83D, 0xDE00, 97, 98], []⟩]
-     t.lensExact && (match t.splitText 2 3 with
+/-- exact cached lengths WERE not an invariant (2): before the repair, splitting the text "\U0001F600ab" after 'a' (UTF-16
+    offset 3) left the left half with the rune count 2 as its length -/
+theorem lens_exact_witness_surrogate_off :
+    (emojiTree.lensExact && (match emojiTree.splitTextW false 2 3 with
        | .ok (t', some _) => !t'.lensExact
+       | _ => false)) = true := by
+  decide +kernel
+
+/-- repaired: the same split keeps the cached lengths exact (both former counterexamples to exactness are repaired; exactness
+    is still not part of `Tree.WF`, it is not proved as an invariant) -/
+theorem lens_exact_split_surrogate_fixed :
+    (emojiTree.lensExact && (match emojiTree.splitText 2 3 with
+       | .ok (t', some _) => t'.lensExact
        | _ => false)) = true := by
   decide +kernel
 
